@@ -296,8 +296,8 @@ tzm_find(tzmap_t m, const char *mname)
 		if (UNLIKELY(tp >= hi)) {
 			/* unterminated name, the file is broken */
 			break;
-		} else if (*mp - *tp < 0) {
-			/* use lower half */
+		} else if ((unsigned char)*mp < (unsigned char)*tp) {
+			/* use lower half, names are sorted bytewise */
 			if (UNLIKELY((const znoff_t*)p - 1U >= ep)) {
 				/* no progress, the file is broken */
 				break;
